@@ -38,7 +38,7 @@ func init() {
 		Name:  "PF-nil",
 		Doc:   "every dereference of a nullable URL component pointer (host, port, query, fragment) is dominated, on the pruned CFG, by a nil test of the same component with no write to it in between, or is a reviewed invariant (/verif/tables/nil.json); Url.path, Url.parser and SearchParams.url are non-nil by constructor completeness (every store is a fresh object, the receiver, or a copy of the same field of another object)",
 		Props: []string{"C02"},
-		Floor: 25,
+		Floor: 10,
 		Run: func(c *Ctx, s *core.Sink) {
 			tab := loadReviewed(c, "nil.json")
 			n := map[string]int{}
@@ -419,7 +419,7 @@ func init() {
 		Name:  "PF-loops",
 		Doc:   "every loop of module code terminates by shape: a range loop, a monotone counted loop with an invariant bound, a cursor loop (every cycle through the header passes an advancing call on its cursor and no rewinding call lies on a cycle), the main loop (SM-rank), or a reviewed entry of /verif/tables/loops.json",
 		Props: []string{"C02"},
-		Floor: 35,
+		Floor: 15,
 		Run: func(c *Ctx, s *core.Sink) {
 			tab := loadReviewed(c, "loops.json")
 			bp := c.P.Func("url", "parser", "BasicParser")
